@@ -38,6 +38,76 @@ Example close_terminates_nonvacuous :
                internal s (LRun 2) = true /\ step fixes_all s (LRun 2) = Some s' /\ bad s' = bad s.
 Proof. eexists; eexists; split; [vm_compute; reflexivity|]. split; [reflexivity|]. split; vm_compute; reflexivity. Qed.
 
+(* close_handles_invalid.  In every state of every run (any interleaving, any number of threads and
+   objects): once the nng_socket_close that ran the shutdown has returned 0 (role R_SHUT: the first
+   closer), a find on the socket's handle, on every context handle, on every dialer/listener handle the
+   application was given and on every pipe handle fails (NNG_ECLOSED / NNG_ENOENT) -- in that state and,
+   the log of returns only growing, in every later one.  For the close that destroyed the socket
+   (R_DESTROY; it may be a second, concurrent closer) the socket's and the contexts' handles are invalid
+   unconditionally, the endpoints' and pipes' once the first closer's shutdown has completed
+   (k_shutdone) -- that it always has by then rests on the reference counts (the destroyer waits for
+   s_ref <= 1 and the first closer holds a reference until it is done), which are cross-checked by the
+   exhaustive search of checks/c10.py but not proved: close_handles_invalid is full for R_SHUT and
+   PARTIAL for R_DESTROY in that one respect.  Returns of further concurrent closers: late_closer_refuted. *)
+Theorem close_handles_invalid :
+  if all_fixed cur_fixes then
+    forall ph la fi ls s, run cur_fixes (init ph la fi) ls = Some s ->
+      (In (USockClose, C_OK, R_SHUT) (rets s) -> handles_invalid s) /\
+      (In (USockClose, C_OK, R_DESTROY) (rets s) ->
+         find_sock s <> None /\ (forall c, find_ctx s c <> None) /\ (k_shutdone (sk s) = true -> handles_invalid s))
+  else pinned_defect cur_fixes.
+Proof. exact (handles_sel cur_fixes). Qed.
+Print Assumptions close_handles_invalid.
+
+(* close_completes_pending.  When the first closer has returned 0 no operation is pending on any context
+   or on any endpoint the application knows; when the destroying closer has returned 0 nothing is pending
+   on the socket or any context either (endpoints: as above).  What "pending on" means for a protocol is
+   abstract here (the sets k_pend / c_pend / e_pend, emptied with NNG_ECLOSED by the protocol's
+   sock_close / sock_fini / ctx_fini, nni_msgq_close and the dialer's connect callback).  An operation
+   of a socket whose protocol completes only in sock_fini (req0) is completed by the destroying closer,
+   not necessarily before the first closer returns. *)
+Theorem close_completes_pending :
+  if all_fixed cur_fixes then
+    forall ph la fi ls s, run cur_fixes (init ph la fi) ls = Some s ->
+      (In (USockClose, C_OK, R_SHUT) (rets s) ->
+         (forall c x, nth_error (ctxs s) c = Some x -> c_pend x = []) /\
+         (forall e x, nth_error (eps s) e = Some x -> e_pub x = true -> e_pend x = [])) /\
+      (In (USockClose, C_OK, R_DESTROY) (rets s) ->
+         k_pend (sk s) = [] /\ (forall c x, nth_error (ctxs s) c = Some x -> c_pend x = []) /\
+         (k_shutdone (sk s) = true -> forall e x, nth_error (eps s) e = Some x -> e_pub x = true -> e_pend x = []))
+  else pinned_defect cur_fixes.
+Proof. exact (pending_sel cur_fixes). Qed.
+Print Assumptions close_completes_pending.
+
+(* non-vacuity of both: a run in which a context and the socket have a receive pending, a dialer exists,
+   and one nng_socket_close runs to its end (it is the first closer and the destroyer) *)
+Definition nv_run : option st :=
+  run fixes_all (init PhFini true true)
+      ([LSpawn UCtxOpen] ++ runs 0 6 ++ [LSpawn (USubmit (Some 0) 1%N true)] ++ runs 1 4 ++
+       [LSpawn (USubmit None 2%N true)] ++ runs 2 4 ++ [LSpawn (UEpCreate true)] ++ runs 3 5 ++
+       [LSpawn USockClose] ++ runs 4 18 ++ reaps 4 ++ runs 4 3).
+Example close_returns_nonvacuous :
+  match nv_run with
+  | Some s => sock_ret R_DESTROY s = true /\ done s = [(1%N, C_ECLOSED); (2%N, C_ECLOSED)] /\
+              length (ctxs s) = 1 /\ length (eps s) = 1 /\ bad s = []
+  | None => False
+  end.
+Proof. vm_compute. repeat split. Qed.
+
+(* double_close (PARTIAL).  Proved: a further nng_socket_close on a handle whose find fails returns an
+   error and touches nothing (with close_handles_invalid: the second close after a completed close gets
+   NNG_ECLOSED); a concurrent closer returns 0 or NNG_ECLOSED / NNG_EBUSY by construction of the
+   program.  Not proved: that no step of the repaired model ever acts on released state (the [bad] log
+   stays empty: reference counts never underflow, no action runs on a destroyed object) and that no
+   state without an enabled step exists while a close is under way -- both are checked exhaustively over
+   all interleavings of 27 small scenarios on every run (checks/c10.py, ocaml/drv_c10.ml explore), and are
+   false of the pinned forms (pinned_defect); on the real library they are runtime facts (ASan, watchdog). *)
+Theorem double_close_partial :
+  forall fx s, find_sock s <> None ->
+    exists rv, run_act fx s (AFind USockClose) = Some (s, [ARet USockClose rv R_NA]) /\ rv <> C_OK.
+Proof. exact second_close_fails. Qed.
+Print Assumptions double_close_partial.
+
 (* pipes: the strict reading ("after nng_pipe_close returns, further calls fail") is false of the
    code: nng_pipe_close marks the pipe and queues it for the reaper; the id leaves the map in
    pipe_reap, after the REM_POST callback (which may still query the pipe). *)
